@@ -42,6 +42,61 @@ mod bulk {
 }
 
 #[cfg(kani)]
+mod prim_ser {
+    //! K-prim (writer half): the ten `serialize_num!` expansions (macro + paste, invisible to Verus) write
+    //! exactly N/8 little-endian bytes. Full domain of each type, loop-free => COMPLETE.
+    use candid::ser::ValueSerializer;
+    use candid::types::Serializer;
+
+    macro_rules! le_harness { ($name:ident, $meth:ident, $t:ty) => {
+        #[kani::proof]
+        fn $name() {
+            let v: $t = kani::any();
+            let mut s = ValueSerializer::new();
+            (&mut s).$meth(v).unwrap();
+            let out = s.get_result();
+            let want = v.to_le_bytes();
+            assert!(out.len() == want.len());
+            let mut i = 0;
+            while i < want.len() { assert!(out[i] == want[i]); i += 1; }
+        }
+    } }
+    le_harness!(ser_nat8, serialize_nat8, u8);
+    le_harness!(ser_nat16, serialize_nat16, u16);
+    le_harness!(ser_nat32, serialize_nat32, u32);
+    le_harness!(ser_nat64, serialize_nat64, u64);
+    le_harness!(ser_int8, serialize_int8, i8);
+    le_harness!(ser_int16, serialize_int16, i16);
+    le_harness!(ser_int32, serialize_int32, i32);
+    le_harness!(ser_int64, serialize_int64, i64);
+
+    #[kani::proof]
+    fn ser_float32() {
+        let bits: u32 = kani::any();
+        let mut s = ValueSerializer::new();
+        (&mut s).serialize_float32(f32::from_bits(bits)).unwrap();
+        let out = s.get_result();
+        let want = bits.to_le_bytes();
+        assert!(out.len() == 4 && out[0] == want[0] && out[1] == want[1] && out[2] == want[2] && out[3] == want[3]);
+    }
+    #[kani::proof]
+    fn ser_float64() {
+        let bits: u64 = kani::any();
+        let mut s = ValueSerializer::new();
+        (&mut s).serialize_float64(f64::from_bits(bits)).unwrap();
+        let out = s.get_result();
+        let want = bits.to_le_bytes();
+        assert!(out.len() == 8);
+        let mut i = 0;
+        while i < 8 { assert!(out[i] == want[i]); i += 1; }
+    }
+}
+
+// (K-prim reader half was attempted through a cfg-guarded hook constructing a Deserializer at byte 0: the Kani 0.68
+// compiler panics on code reachable from the readers -- "kani-compiler/src/intrinsics.rs:243 assertion failed" -- so
+// the ten primitive_impl! readers stay assumed twins in the Verus unit U6b; the hook was not committed.)
+
+#[cfg(kani)]
 mod twins {
     use candid::Int;
 
